@@ -51,6 +51,13 @@ def specLoc (eps : Option (List (Endpoint α))) (b : α) (out : Option α) : Boo
     | none => false
     | some l => l.any (fun e => decide (e.binding = b) && decide (e.location = d))
 
+/-- SP side, negotiated binding: the (binding, location) PAIR that is used is registered as a pair, and the binding is
+    one of those the caller allowed. `none` = refused. -/
+def specNeg (eps : Option (List (Endpoint α))) (toTry : List α) (out : Option (α × α)) : Bool :=
+  match out with
+  | none => true
+  | some (b, d) => toTry.contains b && specLoc eps b (some d)
+
 def specSlo (eps : List (Endpoint α)) (out : Option (Pick α)) : Bool :=
   match out with
   | some (.ok b d) => eps.any (fun e => decide (e.binding = b) && decide (e.location = d))
